@@ -449,6 +449,277 @@ def build_mixed(P, Pp, picks):
     return mk(calls_d), mk(calls_p), sites
 
 
+# ------------------------------------------------------------------------------------------ histories
+# Several conversions in ONE process with callees mutated in between.  Each export must agree with eager JAX NOW and
+# share definitions iff the current states are equal (Dedup.predict on the current site description).
+def _lin_of(inst):
+    return inst.l
+
+
+def _m_scale(inst, other, arg):            # nnx.Param updated IN PLACE through Variable.__setitem__
+    lin = _lin_of(inst)
+    lin.kernel[...] = lin.kernel[...] * 0.5 + 0.25
+    lin.bias[...] = lin.bias[...] - 0.3
+
+
+def _m_value(inst, other, arg):            # nnx.Param updated by .value assignment
+    lin = _lin_of(inst)
+    lin.kernel.value = lin.kernel.value + 1.0
+
+
+def _m_copy(inst, other, arg):             # becomes identical to `other`
+    import jax.numpy as jnp
+    a, b = _lin_of(inst), _lin_of(other)
+    a.kernel[...] = jnp.array(b.kernel[...])
+    a.bias[...] = jnp.array(b.bias[...])
+
+
+def _m_rebind(inst, other, arg):           # attribute rebinding: a NEW submodule object
+    from flax import nnx
+    inst.l = nnx.Linear(3, 3, rngs=nnx.Rngs(int(arg)))
+
+
+def _m_attr(name):
+    def f(inst, other, arg):
+        setattr(inst, name, arg)
+    return f
+
+
+def _m_w_inplace(inst, other, arg):        # numpy array of a mutable dataclass mutated in place
+    inst.w[0, 0] += 1.0
+
+
+def _m_w_rebind_scaled(inst, other, arg):
+    inst.w = inst.w * 2.0
+
+
+def _m_w_copy(inst, other, arg):
+    inst.w = other.w.copy()
+
+
+LIN_MUTS = {
+    "scale": (_m_scale, lambda l, o, a: l + "|s"),
+    "value": (_m_value, lambda l, o, a: l + "|v"),
+    "copy": (_m_copy, lambda l, o, a: o),
+    "rebind": (_m_rebind, lambda l, o, a: f"seed{int(a)}"),
+}
+FAMILIES = {
+    "ULin": dict(q="ULin", make=lambda M, a: M.ULin(int(a)), label=lambda a: f"seed{int(a)}", muts=LIN_MUTS),
+    "Lin": dict(q="Lin", make=lambda M, a: M.Lin(int(a)), label=lambda a: f"seed{int(a)}", muts=LIN_MUTS),
+    "UMix": dict(q="UMix", make=lambda M, a: M.UMix(int(a[0]), a[1], float(a[2])),
+                 label=lambda a: f"seed{int(a[0])};{a[1]};{float(a[2])}",
+                 muts={"scale": (_m_scale, lambda l, o, a: l.split(";")[0] + "|s;" + ";".join(l.split(";")[1:])),
+                       "mode": (_m_attr("mode"), lambda l, o, a: ";".join([l.split(";")[0], a, l.split(";")[2]])),
+                       "k": (_m_attr("k"), lambda l, o, a: ";".join(l.split(";")[:2] + [str(float(a))]))}),
+    "DLin": dict(q="DLin", make=lambda M, a: M.DLin((np.eye(3, dtype=np.float32) * float(a)).copy()), label=lambda a: f"{float(a)}*eye",
+                 muts={"inplace": (_m_w_inplace, lambda l, o, a: l + "|i"), "double": (_m_w_rebind_scaled, lambda l, o, a: l + "|d"),
+                       "copy": (_m_w_copy, lambda l, o, a: o)}),
+    "PScale": dict(q="PScale", make=lambda M, a: M.PScale(float(a)), label=lambda a: f"k={float(a)}",
+                   muts={"k": (_m_attr("k"), lambda l, o, a: f"k={float(a)}")}),
+    "Scale": dict(q="Scale", make=lambda M, a: M.Scale(float(a)), label=lambda a: f"k={float(a)},mul",
+                  muts={"k": (_m_attr("k"), lambda l, o, a: f"k={float(a)},mul")}),
+}
+E = ["export"]
+
+
+def M(t, name, other=None, arg=None):
+    return ["mut", t, name, other, arg]
+
+
+HISTORIES = {
+    # start identical -> become different (the in-place parameter update of a fine-tuning step)
+    "unique_identical_then_param_inplace": dict(family="ULin", init=[0, 0], steps=[E, M(1, "scale"), E]),
+    "unique_identical_then_first_instance_updated": dict(family="ULin", init=[0, 0], steps=[E, M(0, "scale"), E]),
+    "unique_identical_then_value_assign_then_back": dict(family="ULin", init=[0, 0], steps=[E, M(1, "value"), E, M(1, "copy", 0), E]),
+    "unique_identical_then_submodule_rebound": dict(family="ULin", init=[0, 0], steps=[E, M(1, "rebind", arg=5), E, M(1, "rebind", arg=0), E]),
+    "unique_identical_both_updated_alike": dict(family="ULin", init=[0, 0], steps=[E, M(0, "scale"), M(1, "scale"), E]),
+    # start different -> become identical -> become different
+    "unique_different_then_identical_then_different": dict(family="ULin", init=[0, 1], steps=[E, M(1, "copy", 0), E, M(0, "scale"), E]),
+    # static attributes rebound on an nnx module
+    "unique_static_attr_rebound": dict(family="UMix", init=[[0, "mul", 2.0], [0, "mul", 2.0]],
+                                       steps=[E, M(1, "mode", arg="add"), E, M(1, "mode", arg="mul"), E, M(1, "k", arg=3.0), E, M(0, "scale"), E]),
+    # mutable dataclass: in-place array update, attribute rebinding
+    "unique_dataclass_inplace_and_rebind": dict(family="DLin", init=[1.0, 1.0], steps=[E, M(1, "inplace"), E, M(1, "copy", 0), E, M(0, "double"), E]),
+    "unique_dataclass_become_identical": dict(family="DLin", init=[1.0, 2.0], steps=[E, M(1, "copy", 0), E]),
+    # unique=False: never shared across instances, always the current weights
+    "default_identical_then_param_inplace": dict(family="Lin", init=[0, 0], steps=[E, M(1, "scale"), E, M(0, "value"), E]),
+    "default_different_then_identical": dict(family="Lin", init=[0, 1], steps=[E, M(1, "copy", 0), E]),
+    "default_plain_class_attr_rebound": dict(family="PScale", init=[2.0, 2.0], steps=[E, M(1, "k", arg=5.0), E, M(0, "k", arg=5.0), E]),
+    "default_nnx_attr_rebound": dict(family="Scale", init=[2.0, 3.0], steps=[E, M(0, "k", arg=3.0), E]),
+}
+
+
+def random_history(rng):
+    fam = rng.choice(["ULin", "ULin", "UMix", "DLin", "Lin", "PScale"])
+    n = rng.choice([2, 2, 3])
+    if fam in ("ULin", "Lin"):
+        init = [rng.choice([0, 0, 1]) for _ in range(n)]
+    elif fam == "UMix":
+        init = [[rng.choice([0, 0, 1]), rng.choice(["mul", "add"]), rng.choice([2.0, 3.0])] for _ in range(n)]
+    elif fam == "DLin":
+        init = [rng.choice([1.0, 1.0, 2.0]) for _ in range(n)]
+    else:
+        init = [rng.choice([2.0, 2.0, 3.0]) for _ in range(n)]
+    steps = [E]
+    for _ in range(rng.randint(2, 4)):
+        for _ in range(rng.randint(1, 2)):
+            t = rng.randrange(n)
+            name = rng.choice(sorted(FAMILIES[fam]["muts"]))
+            other = rng.choice([i for i in range(n) if i != t]) if name == "copy" else None
+            arg = {"rebind": rng.choice([0, 1, 5]), "mode": rng.choice(["mul", "add"]), "k": rng.choice([2.0, 3.0, 5.0])}.get(name)
+            steps.append(M(t, name, other, arg))
+        steps.append(E)
+    return dict(family=fam, init=init, steps=steps)
+
+
+def run_history(ctx, P, Pp, hname, h, nprng, stats, on_export=None):
+    """replays the history on decorated instances and on their plain twins; one check_program per export"""
+    fam = FAMILIES[h["family"]]
+    inst_d = [fam["make"](P, a) for a in h["init"]]
+    inst_p = [fam["make"](Pp, a) for a in h["init"]]
+    labels = [fam["label"](a) for a in h["init"]]
+    order = list(range(len(inst_d))) + [0]
+    k = 0
+    for step in h["steps"]:
+        if step[0] == "mut":
+            _, t, name, other, arg = step
+            apply, relabel = fam["muts"][name]
+            apply(inst_d[t], None if other is None else inst_d[other], arg)
+            apply(inst_p[t], None if other is None else inst_p[other], arg)
+            labels[t] = relabel(labels[t], None if other is None else labels[other], arg)
+            continue
+        k += 1
+
+        def mk(insts):
+            def fn(x):
+                acc = None
+                for j, i in enumerate(order):
+                    y = insts[i](x * float(j + 1) + float(j))
+                    acc = y if acc is None else acc + y
+                return acc
+            return fn
+        sites = [P.S(fam["q"], f"{hname}.inst{i}", labels[i], [P.F23]) for i in order]
+        pd = dict(fn=mk(inst_d), inputs=P.X, sites=sites, differs="callee state changed between conversions", params=None, finding=None,
+                  feeds_flag=None, x64=False)
+        pp = dict(pd, fn=mk(inst_p))
+        name = f"history:{hname}#export{k}"
+        md, info = check_program(ctx, name, pd, pp, nprng, stats, replay_extra={"history": h, "history_name": hname, "states_now": list(labels)})
+        if on_export is not None:
+            on_export(name, md, info, sites)
+
+
+# ------------------------------------------------------------------------------------------ the key reads only the CURRENT state
+KEY_METHODS = ["_lower_and_call", "_fingerprint_instance_state", "_value_fingerprint", "_build_unique_signature", "_allocate_friendly_name"]
+SELF_READ_OK = {"name", "target", "unique", "namespace", "display_name", "_qualified_target", "_orig_fn", "primitive"}
+MODULE_WRITE_OK = {"_IN_FUNCTION_BUILD"}
+MUTATORS = {"setdefault", "update", "add", "append", "extend", "insert", "pop", "popitem", "clear", "remove", "discard", "__setitem__", "set",
+            "put", "__delitem__"}
+CONTAINER_CTORS = {"dict", "set", "list", "defaultdict", "OrderedDict", "WeakValueDictionary", "WeakKeyDictionary", "WeakSet", "Counter", "deque"}
+
+
+def scan_key_purity(repo=None):
+    """AST scan of FunctionPlugin: the methods that compute the FunctionKey (and every method of the class they reach) keep no
+    per-instance / per-plugin / module-level memory: no store into self.* or module-level containers, no self attribute outside the
+    known configuration, no caching decorator, no container attribute created in __init__.  Fails closed."""
+    import ast
+    path = os.path.join(repo or common.REPO, "jax2onnx", "plugins", "plugin_system.py")
+    try:
+        tree = ast.parse(open(path).read())
+    except Exception as e:  # noqa
+        return False, f"cannot parse {path}: {e}"
+    cls = next((n for n in tree.body if isinstance(n, ast.ClassDef) and n.name == "FunctionPlugin"), None)
+    if cls is None:
+        return False, "class FunctionPlugin not found"
+    methods = {n.name: n for n in cls.body if isinstance(n, (ast.FunctionDef, ast.AsyncFunctionDef))}
+    missing = [m for m in KEY_METHODS if m not in methods]
+    if missing:
+        return False, f"expected methods missing: {missing}"
+    module_names = set()
+    for n in tree.body:
+        if isinstance(n, (ast.FunctionDef, ast.ClassDef)):
+            module_names.add(n.name)
+        elif isinstance(n, (ast.Assign, ast.AnnAssign, ast.AugAssign)):
+            for t in (n.targets if isinstance(n, ast.Assign) else [n.target]):
+                for x in ast.walk(t):
+                    if isinstance(x, ast.Name):
+                        module_names.add(x.id)
+        elif isinstance(n, (ast.Import, ast.ImportFrom)):
+            for a in n.names:
+                module_names.add((a.asname or a.name).split(".")[0])
+    # closure over methods reached through self.<m> / FunctionPlugin.<m>
+    reach, todo = [], list(KEY_METHODS)
+    while todo:
+        m = todo.pop()
+        if m in reach:
+            continue
+        reach.append(m)
+        for x in ast.walk(methods[m]):
+            if isinstance(x, ast.Attribute) and isinstance(x.value, ast.Name) and x.value.id in ("self", "cls", "FunctionPlugin") and x.attr in methods:
+                todo.append(x.attr)
+    problems = []
+
+    def root(node):
+        while isinstance(node, (ast.Attribute, ast.Subscript, ast.Call)):
+            node = node.func if isinstance(node, ast.Call) else node.value
+        return node.id if isinstance(node, ast.Name) else None
+
+    for m in reach:
+        fn = methods[m]
+        for d in fn.decorator_list:
+            dn = ast.unparse(d)
+            if dn not in ("staticmethod", "classmethod"):
+                problems.append(f"{m}: decorator @{dn}")
+        local = set()
+        for x in ast.walk(fn):
+            if isinstance(x, ast.arg):
+                local.add(x.arg)
+            elif isinstance(x, ast.Name) and isinstance(x.ctx, ast.Store):
+                local.add(x.id)
+            elif isinstance(x, (ast.FunctionDef, ast.ClassDef)):
+                local.add(x.name)
+            elif isinstance(x, (ast.Import, ast.ImportFrom)):
+                for a in x.names:
+                    local.add((a.asname or a.name).split(".")[0])
+        local.discard("self")
+
+        def outer(r):
+            return r == "self" or (r is not None and r not in local and r in module_names and r not in MODULE_WRITE_OK)
+        for x in ast.walk(fn):
+            if isinstance(x, (ast.Global, ast.Nonlocal)) and isinstance(x, ast.Global):
+                problems.append(f"{m}: global {x.names}")
+            if isinstance(x, (ast.Assign, ast.AugAssign, ast.AnnAssign)):
+                for t in (x.targets if isinstance(x, ast.Assign) else [x.target]):
+                    for tt in ([t] if not isinstance(t, (ast.Tuple, ast.List)) else t.elts):
+                        if isinstance(tt, (ast.Attribute, ast.Subscript)) and outer(root(tt)):
+                            problems.append(f"{m}: store into {ast.unparse(tt)}")
+            if isinstance(x, ast.Delete):
+                for tt in x.targets:
+                    if isinstance(tt, (ast.Attribute, ast.Subscript)) and outer(root(tt)):
+                        problems.append(f"{m}: del {ast.unparse(tt)}")
+            if isinstance(x, ast.Call):
+                if isinstance(x.func, ast.Attribute) and x.func.attr in MUTATORS and outer(root(x.func.value)):
+                    problems.append(f"{m}: mutating call {ast.unparse(x.func)}")
+                if isinstance(x.func, ast.Name) and x.func.id in ("setattr", "delattr") and x.args and outer(root(x.args[0])):
+                    problems.append(f"{m}: {ast.unparse(x)[:60]}")
+            if isinstance(x, ast.Attribute) and isinstance(x.value, ast.Name) and x.value.id == "self" and isinstance(x.ctx, ast.Load):
+                if x.attr not in SELF_READ_OK and x.attr not in methods:
+                    problems.append(f"{m}: reads self.{x.attr} (not part of the plugin's configuration)")
+    init = methods.get("__init__")
+    if init is None:
+        problems.append("__init__ not found")
+    else:
+        for x in ast.walk(init):
+            if isinstance(x, (ast.Assign, ast.AnnAssign)) and getattr(x, "value", None) is not None:
+                tg = x.targets if isinstance(x, ast.Assign) else [x.target]
+                if any(isinstance(t, ast.Attribute) and isinstance(t.value, ast.Name) and t.value.id == "self" for t in tg):
+                    v = x.value
+                    if isinstance(v, (ast.Dict, ast.Set, ast.List, ast.DictComp, ast.SetComp, ast.ListComp)) or \
+                       (isinstance(v, ast.Call) and (root(v.func) in CONTAINER_CTORS or (isinstance(v.func, ast.Attribute) and v.func.attr in CONTAINER_CTORS))):
+                        problems.append(f"__init__: container attribute {ast.unparse(tg[0])} = {ast.unparse(v)[:40]}")
+    problems = sorted(set(problems))
+    return (not problems), (f"methods scanned: {sorted(reach)}" if not problems else "; ".join(problems[:8]))
+
+
 def new_stats():
     return {"exports": 0, "runs": 0, "rejected": [], "plain_rejected": [], "notes": [], "inline_total": 0, "inline_same_ops": 0,
             "inline_numeric_ok": 0, "inline_diff": [], "domain_version_mismatch": 0, "core_failures": 0}
@@ -526,6 +797,26 @@ def run(ctx):
         if md is not None and not info["bad"]:
             cases.append((name, case_term(I, P.TARGETS, sites, info["defs"], info["calls"])))
 
+    # ---- histories: export / mutate a callee / export again, in this one process
+    def on_export(name, md, info, sites):
+        infos[name] = info
+        if md is not None and not info["bad"]:
+            cases.append((name, case_term(I, P.TARGETS, sites, info["defs"], info["calls"])))
+    hist = dict(HISTORIES)
+    for r in range(3 if ctx.tier == "quick" else 60):
+        hist[f"random{r}"] = random_history(ctx.rng)
+    n_hist_exports = 0
+    for hname, h in hist.items():
+        try:
+            before = len(infos)
+            run_history(ctx, P, Pp, hname, h, nprng, stats, on_export)
+            n_hist_exports += len(infos) - before
+        except Exception as e:  # noqa
+            ctx.oblige(f"harness:history:{hname}", False, "tie", traceback.format_exc()[-1500:])
+    ok_scan, detail = scan_key_purity()
+    ctx.oblige("tie:FunctionKey-is-a-function-of-the-CURRENT-site(FunctionPlugin keeps no per-instance/plugin/module memory in the key computation)",
+               ok_scan, "tie", detail)
+
     # ---- tie: Coq model of the key / registry / names / arities vs the real exports
     bad, err = coq_tie(ctx, "c07_tie", cases)
     if bad is None:
@@ -538,7 +829,7 @@ def run(ctx):
                        f"observed defs {infos[k]['defs']} calls {infos[k]['calls']}; model predicts: {pred}")
         ctx.oblige(f"tie:lower_sites(real_key)-predicts-definitions-calls-arities({len(cases)} real exports)", not bad, "tie",
                    "" if not bad else f"{len(bad)} programs disagree: {bad[:8]}")
-    n_fixed = len([c for c in cases if not c[0].startswith("random:")])
+    n_fixed = len([c for c in cases if not c[0].startswith("random:") and not c[0].startswith("history:")])
     ctx.coverage.update({
         "evaluations": stats["runs"] + len(cases),
         "distinct_nontrivial": len(cases),
@@ -546,7 +837,9 @@ def run(ctx):
                 "input shape, input dtype, keyword value/type/presence, unique on/off, call order, nesting depth 2/3, registry hit skipping a body, "
                 "runtime flag, symbolic dim, double precision) + random call sequences (length 2..6) over a pool of 22 callees, each call site with the boundary present or stripped, Blocks with every combination of decorated outer / inner callees; "
                 "non-trivial = export accepted, functions present, model prediction compared and numerics executed",
-        "programs_fixed": len(P.PROGRAMS), "programs_fixed_tied": n_fixed, "programs_random_tied": len(cases) - n_fixed,
+        "histories": len(hist), "history_exports": n_hist_exports,
+        "programs_fixed": len(P.PROGRAMS), "programs_fixed_tied": n_fixed, "programs_random_tied": len([c for c in cases if c[0].startswith("random:")]),
+        "history_exports_tied": len([c for c in cases if c[0].startswith("history:")]),
         "exports": stats["exports"], "onnxruntime_runs": stats["runs"],
         "exports_rejected_loudly": stats["rejected"], "plain_exports_rejected": stats["plain_rejected"],
         "control_flow_programs_accepted": loud_cf,
@@ -579,6 +872,11 @@ def replay(path):
         def violate(self, key, what, rp):
             self.violations.append((key, what))
     c = C()
+    if "history" in r:
+        run_history(c, P, Pp, r["history_name"], r["history"], np.random.default_rng(r.get("seed", 0)), new_stats())
+        for k, w in c.violations:
+            print(k, "::", w)
+        return 1 if any(k.endswith(name.split("history:")[1] + ":callee state changed between conversions") or name in k for k, _ in c.violations) else 0
     if "picks" in r:
         fn_d, fn_p, sites = build_mixed(P, Pp, r["picks"])
         pd = dict(fn=fn_d, inputs=P.X, sites=sites, differs="random call sequence", params=None, finding=None, feeds_flag=None, x64=False)
